@@ -45,6 +45,17 @@ FAULTS = {
     "chmod": [],
     "start": [],
 }
+# persistent conditions (spec["persist"] = {"cls", "proc", "from"}): from the from-th seam event of process proc on (every
+# process if proc is None) EVERY matching operation fails - a disk that stays full, a descriptor table that stays
+# exhausted, a temp file system remounted read-only, a dying disk.  Not drawn from the tape: a pure function of the spec.
+PERSIST = {
+    "disk-full": {"write": ("write", E.ENOSPC), "flush": ("write", E.ENOSPC), "close": ("write", E.ENOSPC)},
+    "disk-full-meta": {"write": ("write", E.ENOSPC), "flush": ("write", E.ENOSPC), "close": ("write", E.ENOSPC), "create": ("create", E.ENOSPC), "mkdir": ("create", E.ENOSPC), "open-w": ("create", E.ENOSPC)},
+    "fd-exhausted": {"open-r": ("open-r", E.EMFILE), "open-w": ("create", E.EMFILE), "create": ("create", E.EMFILE), "opendir": ("list", E.EMFILE)},
+    "read-only": {"create": ("create", E.EROFS), "mkdir": ("create", E.EROFS), "open-w": ("create", E.EROFS), "unlink": ("remove", E.EROFS), "rmdir": ("remove", E.EROFS), "rename": ("create", E.EROFS)},
+    "io-dead": {"read": ("read", E.EIO), "open-r": ("open-r", E.EIO), "scandir": ("list", E.EIO)},
+    "quota": {"close": ("write", E.EDQUOT), "flush": ("write", E.EDQUOT)},
+}
 ALL_KINDS = ["open-r", "read", "create", "write", "list", "remove", "stat", "epipe", "stdin", "sigint", "kill"]
 POLICIES = ["seq", "rr", "random", "sticky", "pct", "race"]
 CLOCK_JUMPS = [0.0, 86400.0, -86400.0, 400 * 86400.0, -3650 * 86400.0, 3600.0, -1.0, 20 * 365 * 86400.0]
@@ -251,6 +262,7 @@ def _run(spec, tape, root, event_timeout):
 
     # fault plan (generation mode only; replay reads the tape)
     plan: dict[int, dict[int, str | None]] = {i: {} for i in range(n)}
+    persist = spec.get("persist")
     pin = spec.get("pin")  # systematic sweep: the ord-th applicable fault at event ev of process proc, nothing else
     if tape.generating and pin:
         plan[pin["proc"]][pin["ev"]] = pin["ord"]
@@ -405,6 +417,13 @@ def _run(spec, tape, root, event_timeout):
                 p.faults.append({"ev": p.nev, "seq": seq, "op": op, "path": path, "kind": fault[0], "arg": fault[1]})
                 p.last_fault_ev = p.nev
                 key = f"{fault[0]}:{fault[1]}"
+                stats["faults_fired"][key] = stats["faults_fired"].get(key, 0) + 1
+            if not fc and persist and (persist.get("proc") is None or persist["proc"] == p.i) and p.nev >= persist["from"] and op in PERSIST[persist["cls"]] and not path.startswith("<"):
+                fault = PERSIST[persist["cls"]][op]
+                reply = {"a": "err", "errno": fault[1], "frac": 0.0}
+                p.faults.append({"ev": p.nev, "seq": seq, "op": op, "path": path, "kind": fault[0], "arg": fault[1], "persist": persist["cls"]})
+                p.last_fault_ev = p.nev
+                key = f"persist-{persist['cls']}:{fault[1]}"
                 stats["faults_fired"][key] = stats["faults_fired"].get(key, 0) + 1
             if reply is not None and op == "scandir" and perm_mode and reply["a"] == "ok":
                 pv = tape.draw(1000)
